@@ -176,6 +176,8 @@ struct Shared {
     full_attempts: Vec<AtomicU64>,
     producer_done: Vec<AtomicBool>,
     senders_dropped: AtomicU32,
+    /// kernel thread ids of the consumer threads (scheduler state is read from /proc)
+    ktid: Vec<AtomicU64>,
 }
 
 pub fn gen_cfg(rng: &mut Rng, small: bool) -> WakeCfg {
@@ -355,6 +357,7 @@ pub fn run_once(cfg: &WakeCfg, shard: &mut Shard) -> (u64, bool, bool) {
         full_attempts: (0..MAXT).map(|_| AtomicU64::new(0)).collect(),
         producer_done: (0..MAXT).map(|_| AtomicBool::new(false)).collect(),
         senders_dropped: AtomicU32::new(0),
+        ktid: (0..MAXT).map(|_| AtomicU64::new(0)).collect(),
     });
     let mut joins = Vec::new();
     let np = cfg.producers;
@@ -376,6 +379,9 @@ pub fn run_once(cfg: &WakeCfg, shard: &mut Shard) -> (u64, bool, bool) {
                 .name(format!("wake-c{}", my))
                 .spawn(move || {
                     hooks::thread_begin(my, crate::conc::ROLE_CONSUMER, seed, policy, &plan);
+                    if !cfg!(miri) {
+                        sh.ktid[my as usize].store(unsafe { libc::syscall(libc::SYS_gettid) } as u64, SeqCst);
+                    }
                     let mut r = Rng::new(seed);
                     if use_iter {
                         rx.into_blocking_iter(r.chance(1, 2));
@@ -584,6 +590,44 @@ pub fn run_once(cfg: &WakeCfg, shard: &mut Shard) -> (u64, bool, bool) {
         }
         false
     };
+    // A consumer inside BlockingWait whose predicate is true and for which a notification was issued
+    // after its locked check, yet which stays asleep in the kernel without consuming CPU while nothing
+    // else can happen any more: the notification was lost between its check and its registration.
+    let mut sleep_watch: Vec<(u64, u64, u32)> = vec![(u64::MAX, 0, 0); MAXT]; // (wait entry, cpu, consecutive samples)
+    let mut asleep_rule = |c: &(u32, usize, u32), detail: &str, phase: &str| -> bool {
+        if cfg!(miri) || !is_blocking {
+            return false;
+        }
+        let pt = match consumer_pts.iter().find(|p| p.0 == c.0) {
+            Some(p) => p.1,
+            None => return false,
+        };
+        let e = st.slots[c.0 as usize].enters.load(SeqCst);
+        let cpu = match crate::solo::thread_cpu_ns(pt) {
+            Some(c) => c,
+            None => return false,
+        };
+        let state = crate::solo::solo_state(shared.ktid[c.0 as usize].load(SeqCst));
+        let w = &mut sleep_watch[c.0 as usize];
+        if w.0 != e || w.1 != cpu || state != Some('S') {
+            *w = (e, cpu, 0);
+            return false;
+        }
+        w.2 += 1;
+        if w.2 >= 150 {
+            violation(
+                "C08,C07",
+                "blocked-forever",
+                format!("blocked-forever:asleep-although-predicate-true:{}", phase),
+                format!(
+                    "the wake condition of this consumer is true, nothing else is running, and it has been asleep in the kernel for 150 consecutive samples without consuming any CPU: the wake-up it needed was lost: {}",
+                    detail
+                ),
+            );
+            return true;
+        }
+        false
+    };
     let stream_outstanding = |si: usize| -> bool {
         let consumed: u32 = consumer_tids.iter().filter(|c| c.1 == si).map(|c| shared.got[c.0 as usize].load(SeqCst)).sum();
         consumed < shared.sent.load(SeqCst).min(cfg.values)
@@ -634,7 +678,9 @@ pub fn run_once(cfg: &WakeCfg, shard: &mut Shard) -> (u64, bool, bool) {
                 CS::LostNotify(detail) => stuck.push((c.0, c.1, "lost-notify".to_string(), detail)),
                 CS::WaitTrue(detail) => {
                     all = false;
-                    if active_producers.is_empty() && spin_rule(c, &detail, "senders-alive") {
+                    if active_producers.is_empty()
+                        && (spin_rule(c, &detail, "senders-alive") || asleep_rule(c, &detail, "senders-alive"))
+                    {
                         spun = true;
                     }
                     break;
@@ -760,7 +806,7 @@ pub fn run_once(cfg: &WakeCfg, shard: &mut Shard) -> (u64, bool, bool) {
                 }
                 CS::WaitTrue(detail) => {
                     all = false;
-                    if spin_rule(c, &detail, "after-last-sender") {
+                    if spin_rule(c, &detail, "after-last-sender") || asleep_rule(c, &detail, "after-last-sender") {
                         verdict = Verdict::Violated;
                         phase2_done = true;
                     }
